@@ -203,6 +203,48 @@ def _diff(a, b, path=''):
     return f'{path}: {a!r} -> {b!r}'
 
 
+@common.job
+def deep_chain(job):
+    """an inheritance chain longer than the recursion limit in force ('chains of any depth')"""
+    import sys
+    from ..langs import asset, assoc, spec, step, S, F, V, COL
+    n, limit = job
+    assets = [asset('T0', steps=[step('s', 'or', reaches=[S('s')]), step('t', 'or')], variables=[('v1', F('bb'))])]
+    for i in range(1, n):
+        kind = ('none', 'ext', 'over')[i % 3] if i < n - 1 else 'ext'
+        reaches = None if kind == 'none' else [COL(V('v1'), S('t'))] if i == n - 1 else [S('s')]
+        assets.append(asset(f'T{i}', sup=f'T{i - 1}', steps=[step('s', 'or', reaches=reaches, overrides=(kind == 'over'))]))
+    sp = spec(assets, [assoc('Ln', 'T0', 'aa', '*', '*', 'bb', 'T0')], lang_id='org.verif.deep')
+    pristine = json.dumps(sp, sort_keys=True)
+    case = {'deep_chain': n, 'recursion_limit': limit}
+    old = sys.getrecursionlimit()
+    viols = []
+    try:
+        sys.setrecursionlimit(limit)
+        try:
+            from maltoolbox.language import LanguageGraph
+            lg = LanguageGraph(sp)
+            got = {t: lg._get_attacks_for_asset_type(t) for t in (f'T{n - 1}', f'T{n // 2}', 'T1')}
+            assocs = len(lg.get_asset_by_name(f'T{n - 1}').associations)
+        except RecursionError:
+            viols.append(common.Violation('deep_chain:recursion_error',
+                                          f'an inheritance chain of {n} levels cannot be loaded under a recursion limit of {limit}', case=case))
+            got = None
+    finally:
+        sys.setrecursionlimit(old)
+    if got is not None:
+        for t, steps in got.items():
+            want = inherit.resolve(sp, t)
+            have = {k: (v['reaches']['stepExpressions'] if v['reaches'] else []) for k, v in steps.items()}
+            if have != {k: r['reaches'] for k, r in want.items()}:
+                viols.append(common.Violation('deep_chain:fold_differs', f'{t}: resolved steps differ from the root-down fold', case=case))
+        if assocs != 1:
+            viols.append(common.Violation('deep_chain:associations', 'the leaf type does not list the association inherited from the root', case=case))
+        if json.dumps(sp, sort_keys=True) != pristine:
+            viols.append(common.Violation('deep_chain:spec_modified', 'the specification was modified', case=case))
+    return {'deep_chains': 1, 'transitions': 3}, [v.to_json() for v in viols]
+
+
 def run(tier, seed):
     res = common.Result(PROP, tier, seed, 'model_checking')
     res.rule = ('one transition system per INH language shape (every assignment of absent / no-reaches / '
@@ -219,6 +261,9 @@ def run(tier, seed):
         res.add_violations(viols)
         if closed_at == 1:
             closed += 1
+    for stats, viols in common.pmap(deep_chain, [(400, 350)] + ([(1500, 1000)] if tier == 'thorough' else [])):
+        res.merge_counts(stats)
+        res.add_violations(viols)
     res.sample({'shape': jobs[0][0], 'ops': [list(o) for o in ops_for(['Rr', 'Mm', 'L1', 'L2'], ['L1', 'L2'])]})
     res.bounds = {'languages': len(jobs), 'closed_at_depth_1': closed, 'depth_cap_if_not_closed': DEPTH_CAP,
                   'inheritance_depth': '3 and 4 (two siblings at each of the lower levels)'}
@@ -235,6 +280,9 @@ def run(tier, seed):
 def replay(path):
     j = json.load(open(path))
     c = j['case']
+    if 'deep_chain' in c:
+        import sys
+        return common.rerun(PROP, path, sys.modules[__name__])
     stats, viols, closed = check_language((c['shape'], c['depth4']))
     for v in viols:
         print('reproduced:', v['key'], v['what'])
